@@ -72,6 +72,10 @@ def obligations(tier, seed):
     for which, name in ((5, "gpst"), (6, "gst"), (7, "bdt"), (8, "qzsst")):
         obs.append(mk_to_ns(which, name))
         obs.append(mk_from_ns(which, name))
+    obs.append(KaniOb("c20", "c20_tow_kani", "Kani twin: to_time_of_week returns the unique (week, ns < 604800 s) with week*7d + ns == elapsed",
+                      ["Epoch::to_time_of_week", "Duration::total_nanoseconds"], "nine scales x every elapsed time in centuries 0..2 (weeks 0..15653) at ns resolution", tq=1500))
+    obs.append(KaniOb("c20", "c20_from_tow_kani", "Kani twin: from_time_of_week lies exactly week*7d + ns after the zero of the scale",
+                      ["Epoch::from_time_of_week", "Duration::from_total_nanoseconds"], "nine scales x weeks < 20000 x every u64 ns", tq=1500))
     obs.append(KaniOb("c20", "c20_day_of_year", "from_day_of_year(y, k) is k-1 whole days after 1 January of y and duration_in_year returns exactly that; 1 January is day 1",
                       ["Epoch::from_day_of_year", "Epoch::duration_in_year", "Epoch::year", "Epoch::compute_gregorian", "Epoch::maybe_from_gregorian", "Unit * f64"],
                       "years in a window around a seed-chosen anchor (see generated consts), integer day numbers 1..=366, TAI/UTC/GPST", tq=2400, tt=7200, tier="thorough"))
